@@ -54,8 +54,17 @@ def simple_tokens(text):
             out.append((kind, w, line))
             i = j
             if w == "A2ML" and len(out) >= 2 and out[-2][0] == "begin":
-                j = text.find("/end", i)
-                j = n if j < 0 else j
+                # the A2ML text ends at the first /end that stands outside the comments of the A2ML text
+                j = i
+                while j < n and not text.startswith("/end", j):
+                    if text.startswith("//", j):
+                        k = text.find("\n", j)
+                        j = n if k < 0 else k
+                    elif text.startswith("/*", j):
+                        k = text.find("*/", j + 2)
+                        j = n if k < 0 else k + 2
+                    else:
+                        j += 1
                 raw = text[i:j]
                 if raw.strip():
                     lead = len(raw) - len(raw.lstrip())
